@@ -323,7 +323,7 @@ class Program:
                 m = _re_closure_ty.search(f.args[0][1])
                 if m:
                     parent = full[:full.rfind("::{closure#")]
-                    caps = ",".join(sorted(set(n for _, n in f.captures)))
+                    caps = ",".join(sorted(set(n[2:] if n.startswith("r#") else n for _, n in f.captures)))
                     self.closures.setdefault(parent + "|" + m.group(1) + "|" + caps, []).append(f)
                     continue
             m = _re_impl.search(name)
@@ -1073,7 +1073,7 @@ class Exec:
                 raise Unmodelled("repeat count " + n)
             return Seq((self.operand(fr, rv[1]),) * int(m.group(1)))
         if k == "closure":
-            key = f.name + "|" + rv[1][len("{closure@"):-1] + "|" + ",".join(sorted(n for n, _ in rv[2]))
+            key = f.name + "|" + rv[1][len("{closure@"):-1] + "|" + ",".join(sorted((n[2:] if n.startswith("r#") else n) for n, _ in rv[2]))
             return Closure(key, tuple(self.operand(fr, x) for _, x in rv[2]))
         if k == "len":
             return self.seq_len(self.read(fr, rv[1]))
